@@ -267,6 +267,15 @@ def eval_case(case):
             if 0 <= k < len(want_cost.get(gid, [])) and gc.cost != want_cost[gid][k] and len(viol) < 3:
                 viol.append(("price_in_force", "C10:price_in_force_not_latest_signal:%s" % full["strategy"],
                              "%s %s: cost %r, latest signal says %r" % (self.current_time, gid, gc.cost, want_cost[gid][k])))
+        # greedy's "plus stationary-battery support": the support budget is what the battery can really deliver over the
+        # step - stated independently of get_available_power by discharging a copy
+        for bid, b in self.world_state.batteries.items():
+            got = b.get_available_power(self.interval)
+            can = copy.deepcopy(b).unload(self.interval)["avg_power"]
+            if abs(got - can) > 1e-9 * max(1.0, abs(can)) and len(viol) < 3:
+                viol.append(("battery_support", "C10:battery_support_budget_not_deliverable:%s" % full["strategy"],
+                             "%s %s: get_available_power %r, a discharge over the step delivers %r"
+                             % (self.current_time, bid, got, can)))
         line = render_world(self, rule)
         ref = copy.deepcopy(self)
         ref_err = None
